@@ -47,11 +47,19 @@ func NewIncreaseLevelCore(core Core, level LevelEnabler) (Core, error) {
 }
 
 func (c *levelFilterCore) Enabled(lvl Level) bool {
-	return c.level.Enabled(lvl)
+	// The filter only narrows: an entry is delivered only if the wrapped core
+	// enables its level too (the two can disagree for levels outside the
+	// named range, or once a dynamic level changes after construction).
+	return c.level.Enabled(lvl) && c.core.Enabled(lvl)
 }
 
 func (c *levelFilterCore) Level() Level {
-	return LevelOf(c.level)
+	for l := _minLevel; l <= _maxLevel; l++ {
+		if c.Enabled(l) {
+			return l
+		}
+	}
+	return InvalidLevel
 }
 
 func (c *levelFilterCore) With(fields []Field) Core {
